@@ -91,7 +91,8 @@ func init() {
 		[]string{"batches", "batch_repeat_key", "batch_put_then_delete", "batch_get_from_db", "rotations"})
 	meta("C06", "exploration", seqTech+"dumps before/after Merge and after the adopting and following restarts; journal-derived layout oracle for the adopted directory",
 		NontrivialRuleText["C06"], 10000, 300000,
-		[]string{"merges", "restarts_after_merge", "adoptions_checked", "adoptions_fewer_files", "merge_dir_gone"})
+		[]string{"merges", "restarts_after_merge", "adoptions_checked", "adoptions_fewer_files", "merge_dir_gone", "merge_errors", "merge_error_ErrInjected", "merge_error_ErrNoEnoughSpaceForMerge", "conc_merges"},
+		"I/O errors are injected only inside the merge side directory (the statement defines Merge's behaviour under an error; nothing defines the main data path's)")
 	meta("C10", "exploration", seqTech+"frozen sorted-slice cursor model for iterator sessions",
 		NontrivialRuleText["C10"], 12000, 400000,
 		[]string{"iter_sessions_multi", "iter_seeks", "iter_rewinds", "iter_nexts", "iter_interleaved_writes", "lists", "folds"})
